@@ -1,6 +1,7 @@
 package engine
 
 import (
+	"strings"
 	authtypes "github.com/cosmos/cosmos-sdk/x/auth/types"
 
 	"github.com/regen-network/regen-ledger/x/ecocredit/v3/marketplace"
@@ -38,6 +39,15 @@ func scale(w map[string]float64, ks []string, f float64) {
 }
 
 func (p *Profile) feeRateValues() []string {
+	vs := p.feeRateBase()
+	if strings.HasPrefix(p.Name, "C07") || strings.HasPrefix(p.Name, "C03") {
+		// settlement is the subject: rates whose products need more than 34 digits carry more weight
+		vs = append(vs, "0.3333333333333333333333333333333333", "0.6666666666666666666666666666666666667", "0.3333333333333333333333333333333333", "0.1111111111111111111111111111111111111")
+	}
+	return vs
+}
+
+func (p *Profile) feeRateBase() []string {
 	return []string{"", "0", "0.0", "0.000001", "0.01", "0.05", "0.5", "1", "1.5", "2", "0.123456789012345678", "0.3333333333",
 		"0.333333333333333333333333333333", "0.000000000000000000000000000001", "0.99999999999999999999",
 		"0.3333333333333333333333333333333333", "0.09999999999999999999999999999999999999", "0.6666666666666666666666666666666666667"}
